@@ -7,15 +7,58 @@ package main
 import (
 	"bytes"
 	"fmt"
-	"time"
 	"math/big"
 	"strings"
+	"time"
 
 	"go.dedis.ch/kyber/v4"
 
 	"verifharness/internal/groups"
 	"verifharness/internal/kc"
 )
+
+// boundaryProgs: programs whose intermediate scalar results sit exactly on the boundaries of the reduction:
+// a sum or difference equal to the modulus, one below and one above it, zero reached by cancellation, and
+// those results used as multipliers. Random scalars never produce these.
+func boundaryProgs(rng *kc.Rng, q *big.Int, src func(i int) []byte, withBase bool) []prog {
+	one := big.NewInt(1)
+	sub := func(a, b *big.Int) *big.Int { return new(big.Int).Mod(new(big.Int).Sub(a, b), q) }
+	half := new(big.Int).Rsh(q, 1)
+	as := []*big.Int{one, big.NewInt(2), sub(q, one), half, new(big.Int).Add(half, one), rng.BigBelow(q), rng.BigBelow(q)}
+	var out []prog
+	for _, a := range as {
+		for _, d := range []int64{0, 1, -1} {
+			// b = q - a + d: a + b is q, q+1 or q-1 before reduction
+			b := sub(sub(big.NewInt(0), a), big.NewInt(-d))
+			var p prog
+			add := func(dst, op string, args ...string) { p.stmts = append(p.stmts, stmt{dst: dst, op: op, args: args}) }
+			p.stmts = append(p.stmts, stmt{dst: "s0", op: "const", lit: kc.HexN(a)}, stmt{dst: "s1", op: "const", lit: kc.HexN(b)})
+			if withBase {
+				add("p0", "base")
+			} else if src != nil {
+				p.stmts = append(p.stmts, stmt{dst: "p0", op: "dec", lit: kc.HexB(src(0))})
+			} else {
+				continue
+			}
+			add("s2", "add", "s0", "s1")
+			add("p1", "mul", "s2", "p0")
+			add("s3", "neg", "s0")
+			add("s4", "add", "s0", "s3")
+			add("p2", "mul", "s4", "p0")
+			add("s5", "sub", "s0", "s0")
+			add("s6", "sub", "s5", "s1")
+			add("s7", "add", "s6", "s1")
+			add("p3", "mul", "s7", "p0")
+			add("s8", "mul", "s2", "s0")
+			add("s9", "add", "s1", "s0")
+			add("s9", "add", "s9", "s4")
+			add("p4", "mul", "s9", "p0")
+			add("p5", "add", "p1", "p4")
+			out = append(out, p)
+		}
+	}
+	return out
+}
 
 type stmt struct {
 	dst  string   // pN or sN
